@@ -92,7 +92,11 @@ static void compare_pattern(const char *pat)
 		/* slices: the editor resumes a search or a substitution inside the line and passes the rest of the
 		 * line with not-BOL; both matchers must treat the slice start alike (neither may look to its left) */
 		for (k = 0; k < nsubj; k++) {
-			int off;
+			int off, nch = 0;
+			for (off = 0; subjects[k][off]; off++)
+				nch += (subjects[k][off] & 0xc0) != 0x80;
+			if (nch > 5)		/* (with the newline) the longest lines of the thorough tier: whole-line comparisons only */
+				continue;
 			for (off = 1; subjects[k][off]; off++) {
 				int g1[8], g2[8], i, r1, r2;
 				if ((subjects[k][off] & 0xc0) == 0x80)
